@@ -470,6 +470,28 @@ func ruleLITFP(c *Ctx) []Obligation {
 	}
 	obs = append(obs, lf.precision(RF, hexRegion)...)
 
+	// ---- printer: the value is spelled by big.Float's own formatter --------------------------
+	on := Obligation{Key: "float printer: no spelling through an integer conversion", Pos: c.pos(ifd.Pos()), Verdict: OK, Detail: "no (*big.Float).Int64 / Uint64 / Int in the printer"}
+	for _, fd := range PF {
+		ast.Inspect(fd.Body, func(n ast.Node) bool {
+			call, ok := n.(*ast.CallExpr)
+			if !ok {
+				return true
+			}
+			se, ok := unparen(call.Fun).(*ast.SelectorExpr)
+			if !ok || !isNamed(info.TypeOf(se.X), "math/big", "Float") {
+				return true
+			}
+			switch se.Sel.Name {
+			case "Int64", "Uint64", "Int":
+				on.Verdict, on.Pos = VIOL, c.pos(call.Pos())
+				on.Detail = fmt.Sprintf("the printer converts the value to an integer (%s): what is then written is the integer's spelling — the sign of a negative zero, and every value an integer of that width cannot hold, are lost — instead of a spelling produced from the big.Float itself", exprString(call))
+			}
+			return true
+		})
+	}
+	obs = append(obs, on)
+
 	// ---- printer: exactness guards -----------------------------------------------------
 	want := map[string]string{"types.FloatKindHalf": "IsExact16", "types.FloatKindFloat": "IsExact32", "types.FloatKindDouble": "IsExact64"}
 	for _, pk := range pkinds {
